@@ -269,6 +269,9 @@ def _scaling(ctx, eng):
     src = {ast.unparse(s) for s in fn.body}
     want = {'Dx': 'Dx = Dx / dx', 'Dy': 'Dy = Dy / dy', 'Dxx': 'Dxx = Dxx / dx ** 2', 'Dyy': 'Dyy = Dyy / dy ** 2', 'Dxy': 'Dxy = Dxy / (dx * dy)'}
     out = [structural('stencil/scaling.%s' % k, PROP, v in src, v) for k, v in want.items()]
+    for ax, col in (('dx', 0), ('dy', 1)):
+        ok = ('%s = cell_sizes[:, %d]' % (ax, col)) in src and ('%s = np.min(abs(%s[%s != 0])).item()' % (ax, ax, ax)) in src and 'cell_sizes = np.diff(cell_centres, axis=0)' in src
+        out.append(structural('stencil/voxel-size.%s' % ax, PROP, ok, '%s = smallest non-zero difference of successive cell centres along axis %d' % (ax, col), standin='voxel-size'))
     out.append(structural('stencil/returned-operators', PROP, 'operators = dict(Dx=Dx, Dy=Dy, Dxx=Dxx, Dyy=Dyy, Dxy=Dxy)' in src, 'dict of the five operators'))
     return out
 
@@ -358,3 +361,59 @@ print(json.dumps({"max_abs_difference_from_laplacian_on_interior_rows": err, "fl
     err = (out or {}).get('max_abs_difference_from_laplacian_on_interior_rows')
     return {'confirmed': err is not None and err > 1e-9, 'input': 'anisotropy=1, psi = x + 0.7 y + 0.5 y^2 on a 6x6 grid',
             'observed': out, 'expected': 'difference 0 (operator reduces to the Laplacian for anisotropy 1)'}
+
+
+def bounded_operators_on_grids(ctx):
+    """Bounded stand-in (NOT a proof) for the part of generate_derivative_operators that is outside the verified stencil rows: the voxel
+    size it derives from the cell centres (numpy reductions) and the assembly over a whole grid.  On regular grids of several shapes
+    (square and non-square, 2..7 columns and rows, dx != dy) in the documented column-major layout the returned operators must annihilate
+    constants, differentiate linear fields exactly in every cell and quadratic / bilinear fields exactly in interior cells."""
+    from replaylib.native import run_native
+    n = 6 if ctx['tier'] == 'quick' else 60
+    code = '''
+import random
+import numpy as np
+from cherab.tools.inversions.admt_utils import generate_derivative_operators
+rnd = random.Random(%d)
+bad = []; cases = 0
+def grid(nx, ny, dx, dy, x0, y0):
+    # documented layout: column-major, each successive voxel in a column BELOW the previous one; 2-D index (ix, iy), iy fastest
+    verts = []; m12 = {}; m21 = {}; k = 0
+    for ix in range(nx):
+        for iy in range(ny):
+            xa = x0 + ix * dx; ya = y0 - iy * dy
+            verts.append([(xa, ya), (xa + dx, ya), (xa + dx, ya - dy), (xa, ya - dy)])
+            m12[k] = (ix, iy); m21[(ix, iy)] = k; k += 1
+    verts = np.array(verts)
+    return verts, verts.mean(axis=1), m12, m21
+shapes = [(3, 3), (4, 4), (5, 3), (2, 4), (6, 2), (3, 7)] + [(rnd.randint(2, 7), rnd.randint(2, 7)) for _ in range(%d)]
+for nx, ny in shapes:
+    dx, dy = rnd.uniform(0.05, 2.0), rnd.uniform(0.05, 2.0); x0, y0 = rnd.uniform(0.5, 3.0), rnd.uniform(-2.0, 2.0)
+    verts, c, m12, m21 = grid(nx, ny, dx, dy, x0, y0)
+    ops = generate_derivative_operators(verts, m12, m21)
+    x, y = c[:, 0], c[:, 1]
+    a, b, g = rnd.uniform(-2, 2), rnd.uniform(-2, 2), rnd.uniform(-2, 2)
+    interior = [m21[(i, j)] for i in range(1, nx - 1) for j in range(1, ny - 1)]
+    cases += 1
+    checks = [("every operator annihilates constants", max(float(np.abs(ops[k] @ np.ones(len(x))).max()) for k in ops), 0.0, None),
+              ("Dx of a + b x + g y is b in every cell", ops["Dx"] @ (a + b * x + g * y), b, None),
+              ("Dy of a + b x + g y is g in every cell", ops["Dy"] @ (a + b * x + g * y), g, None),
+              ("Dxx of b x^2 is 2 b in interior cells", ops["Dxx"] @ (b * x * x), 2 * b, interior),
+              ("Dyy of g y^2 is 2 g in interior cells", ops["Dyy"] @ (g * y * y), 2 * g, interior),
+              ("Dxy of a x y is a in interior cells", ops["Dxy"] @ (a * x * y), a, interior)]
+    for what, got, want, where in checks:
+        got = np.atleast_1d(got)
+        if where is not None:
+            if not where: continue
+            got = got[where]
+        if not np.allclose(got, want, rtol=1e-7, atol=1e-7 * max(1.0, abs(want)) * max(1.0, 1 / dx ** 2, 1 / dy ** 2)):
+            bad.append({"grid_columns_x_rows": [nx, ny], "dx": dx, "dy": dy, "check": what, "observed": float(got.flat[int(np.abs(got - want).argmax())]), "expected": want}); break
+print(json.dumps({"cases": cases, "bad": bad[:4], "nbad": len(bad)}))
+''' % (ctx['seed'] + 20, n)
+    out = run_native(ctx, code, timeout=600)
+    return {'name': 'derivative operators on regular grids of several shapes: exact on polynomials (BOUNDED stand-in, not counted as proved)',
+            'ok': bool(out) and out.get('bad') == [], 'detail': out, 'covers': ['voxel-size'],
+            'bound': '6 fixed + %d random grid shapes (2..7 x 2..7), random dx, dy, origin; seed %d' % (n, ctx['seed'] + 20)}
+
+
+BOUNDED = [bounded_operators_on_grids]
